@@ -30,6 +30,11 @@ THEOREMS = [
     "PorepyVerif.C11.face_flux_exact",
     "PorepyVerif.C11.face_pressure_exact",
     "PorepyVerif.C11.mpfa2d_linear_exact",
+    "PorepyVerif.C11.mpfa2d_const_zero_flux",
+    "PorepyVerif.C11.mpfa2d_regions_wellformed",
+    "PorepyVerif.C11.mpfa2d_regions_nonsingular",
+    "PorepyVerif.C11.mpfa2d_gradients_sound",
+    "PorepyVerif.C11.mpfa2d_apply_exact",
 ]
 LEAN_MODULES = ["PorepyVerif.C11.Props"]
 AUDIT = "PorepyVerif/C11/Audit.lean"
@@ -40,7 +45,9 @@ RULE = ("one case = one grid (2-D: CartGrid 1-4 x 1-4, StructuredTriangleGrid, D
         "StructuredTetrahedralGrid, Delaunay TetrahedralGrid; 12% of the 2-D grids embedded in 3-D by an exact rational rotation, "
         "then K is a full 3x3 SPD tensor), nodes dyadic (axis scaling 1/2..4, node perturbation k/16, "
         "|k|<=3, prob 3/4; perturbed hexahedra have non-planar faces), constant SPD K = s(LL^T + I/2) with dyadic L (or isotropic / "
-        "diagonal with contrast up to 64), every boundary face Dirichlet with probability q in {.15,.5,.85,1} (at least one), "
+        "diagonal with contrast up to 64 / principal values 1:2^6..2^12 in a rationally rotated frame; K scaled by 2^e, e in -20..20), "
+        "global geometric scale 2^-20 / 1 / 2^20, boundary pattern random (q in {.15,.5,.85}) / two opposite sides / alternating / "
+        "single face / all Dirichlet (at least one Dirichlet face), "
         "affine field a.x+b with integer a in [-3,3]^d, plus an arbitrary dyadic cell/boundary field for the correspondence; "
         "2-D grids with at most 9 (quick) / 18 (thorough) cells are also sent whole to the mpfa2d model (entry-wise matrix comparison); "
         "discretised with the python or (1/10) numba inverter and (1/6) with 2-3 sub-problems; grids with an ill-conditioned "
@@ -107,18 +114,30 @@ def _dy(rng, lo, hi, den):
 
 
 def _gen_K(rng, d):
+    """constant SPD tensor and its stratum: identity / diagonal contrast / full SPD / strongly anisotropic rotated"""
     r = rng.random()
-    if r < 0.12:
+    if r < 0.1:
+        kind = "identity"
         K = [[Fraction(int(i == j)) for j in range(d)] for i in range(d)]
-    elif r < 0.3:
+    elif r < 0.25:
+        kind = "diagonal"
         K = [[Fraction(0)] * d for _ in range(d)]
         for i in range(d):
             K[i][i] = Fraction(rng.choice([1, 2, 4, 16, 64]), rng.choice([1, 1, 4]))
+    elif r < 0.37:
+        # principal values 1 : 2^k (k up to 12) in a frame rotated by an exact rational rotation
+        kind = "anisotropic-rotated"
+        Q = [row[:2] for row in _rot(rng, 2)[:2]] if d == 2 else _matmul(_rot(rng, 2), _rot(rng, 0))
+        lam = [Fraction(1)] * d
+        lam[rng.randrange(d)] = Fraction(2) ** rng.choice([6, 8, 10, 12])
+        K = [[sum(Q[i][k] * lam[k] * Q[j][k] for k in range(d)) for j in range(d)] for i in range(d)]
     else:
+        kind = "full"
         L = [[_dy(rng, -2, 2, 2) if j <= i else Fraction(0) for j in range(d)] for i in range(d)]
         K = [[sum(L[i][k] * L[j][k] for k in range(d)) + (Fraction(1, 2) if i == j else 0) for j in range(d)] for i in range(d)]
-    s = Fraction(2) ** rng.choice([-3, -1, 0, 0, 0, 1, 3])
-    return [[s * v for v in row] for row in K]
+    e = rng.choice([-20, -3, -1, 0, 0, 0, 0, 1, 3, 20])
+    s = Fraction(2) ** e
+    return [[s * v for v in row] for row in K], kind, e
 
 
 def _base_grid(gtype, n, nodes=None, simplices=None):
@@ -256,20 +275,38 @@ def _gen_case(rng, tier):
                     v *= scale[k]
                 row.append(v)
             nodes.append(row)
+    gexp = rng.choice([-20, 0, 0, 0, 0, 0, 0, 0, 20])   # extreme geometric scale (dyadic: coordinates stay exact)
+    if gexp:
+        nodes = [[v * Fraction(2) ** gexp for v in row] for row in nodes]
     tilt = None
     if d == 2 and rng.random() < 0.12:
         # the 2-D grid is embedded in 3-D by an exact rational rotation Q (covers the map_grid / K-rotation branch)
         tilt = _matmul(_rot(rng, 2), _rot(rng, rng.choice([0, 1])))
         nodes = _matmul(tilt, nodes)
-    K = _gen_K(rng, 3 if tilt else d)
+    K, kkind, kexp = _gen_K(rng, 3 if tilt else d)
     case = {"gtype": gtype, "n": n, "nodes": [[frac(v) for v in row] for row in nodes], "simplices": simplices,
             "K": [[frac(v) for v in row] for row in K], "tilt": [[frac(v) for v in row] for row in tilt] if tilt else None}
     g = _grid(case)
     bf = [int(f) for f in g.get_all_boundary_faces()]
-    q = rng.choice([0.15, 0.5, 0.85, 1.0])
-    dirf = [f for f in bf if rng.random() < q]
+    pat = rng.choice(["random", "random", "random", "sides", "alternate", "single", "all"])
+    if pat == "random":
+        q = rng.choice([0.15, 0.5, 0.85])
+        dirf = [f for f in bf if rng.random() < q]
+    elif pat == "sides":      # Dirichlet on the two ends of one coordinate direction, Neumann elsewhere
+        k = rng.randrange(3)
+        xs = g.face_centers[k, bf]
+        lo, hi = float(xs.min()), float(xs.max())
+        thr = 0.2 * (hi - lo)
+        dirf = [f for f in bf if g.face_centers[k, f] <= lo + thr or g.face_centers[k, f] >= hi - thr]
+    elif pat == "alternate":
+        dirf = bf[rng.randrange(2)::2]
+    elif pat == "single":
+        dirf = [rng.choice(bf)]
+    else:
+        dirf = list(bf)
     if not dirf:
         dirf = [rng.choice(bf)]
+    case["strata"] = {"K": kkind, "K_exp": kexp, "geom_exp": gexp, "bc": pat, "perturbed": bool(simplices is None and pert)}
     da = 3 if tilt else d
     a = [rng.randint(-3, 3) for _ in range(da)]
     if rng.random() < 0.06:
@@ -284,7 +321,7 @@ def _gen_case(rng, tier):
         bc_rnd[f] = _dy(rng, -40, 40, 8)
     case["bc_rnd"] = [frac(v) for v in bc_rnd]
     case["inverter"] = "numba" if rng.random() < 0.1 else "python"
-    case["nsub"] = rng.choice([2, 3]) if (rng.random() < 1 / 6 and g.num_cells >= 4) else 1
+    case["nsub"] = rng.choice([2, 3]) if (rng.random() < 1 / 6 and g.num_cells >= 2) else 1
     # faces whose interaction regions are sent to the Lean model
     maxc = MAXCELLS[tier]
     ncell_node = _cells_per_node(g)
@@ -421,7 +458,7 @@ def oracle(case):
             return None  # some other ill-conditioned local system (never generated; reachable only by shrinking / replays)
         # the recorded open finding: the property says "any grid", the real code answers silently with wrong numbers
         try:
-            r = _oracle(case)
+            r = _oracle(case, backward_scale=False, catch=False)
         except ValueError:
             return None  # repaired code refuses the singular local system loudly
         if r is not None:
@@ -431,8 +468,15 @@ def oracle(case):
     return _oracle(case)
 
 
-def _oracle(case):
-    g, K, M = _discretize(case)
+def _oracle(case, backward_scale=True, catch=True):
+    try:
+        g, K, M = _discretize(case)
+    except Exception as e:
+        if not catch:
+            raise
+        return {"what": f"{case['gtype']} grid {case['n']}: Mpfa.discretize raised {type(e).__name__}: {str(e)[:120]} on an admissible grid "
+                        f"(all local systems well conditioned; K = {case['K']}, Dirichlet faces {case['dir']})",
+                "key": f"discretize-raised:{case['gtype']}:{type(e).__name__}"}
     gt = case["gtype"]
     b = float(Fraction(case["b"]))
     a = case["a"]
@@ -442,7 +486,12 @@ def _oracle(case):
     if not (np.all(np.isfinite(fl)) and np.all(np.isfinite(pr))):
         return {"what": f"non-finite discretisation on {gt} grid {case['n']}", "key": f"non-finite:{gt}"}
     amax = float(np.abs(g.face_normals).sum(axis=0).max()) * float(np.abs(K).max()) * max(1.0, float(np.abs(a).max()))
-    sc_f = max(1.0, float(np.abs(exact).max()), amax)
+    # backward-error scale of the matrix-vector products (cancellation when |b| >> |a.x|)
+    be_f = float((abs(M["flux"]) @ np.abs(p) + abs(M["bound_flux"]) @ np.abs(bc)).max())
+    be_p = float((abs(M["bound_pressure_cell"]) @ np.abs(p) + abs(M["bound_pressure_face"]) @ np.abs(bc)).max())
+    if not backward_scale:   # singular local system: the matrix entries are garbage of size 1e16, not a scale
+        be_f = be_p = 0.0
+    sc_f = max(float(np.abs(exact).max()), amax, be_f) or 1.0
     err = np.abs(fl - exact)
     if err.max() > TOL * sc_f:
         f = int(np.argmax(err))
@@ -450,7 +499,7 @@ def _oracle(case):
         return {"what": f"{gt} grid {case['n']}: flux*p + bound_flux*bc = {fl[f]!r} on {cl} face {f}, exact Darcy flux of "
                         f"p = {a}.x + {b} with K = {case['K']} is {exact[f]!r} (Dirichlet faces {case['dir']})",
                 "key": f"flux-not-exact:{gt}:{cl}"}
-    sc_p = max(1.0, float(np.abs(pf).max()), float(np.abs(p).max()))
+    sc_p = max(float(np.abs(pf).max()), float(np.abs(p).max()), be_p) or 1.0
     errp = np.abs(pr - pf)[bf]
     if errp.max() > TOL * sc_p:
         f = int(bf[int(np.argmax(errp))])
@@ -462,13 +511,13 @@ def _oracle(case):
     c = b if b != 0 else 1.0
     p0, bc0, _, _, _, _ = _affine_data(g, K, [0] * 3, c, case["dir"], _nu(case))
     fl0, pr0 = _apply(M, p0, bc0)
-    sc0 = max(1.0, abs(c)) * max(1.0, amax)
+    sc0 = max(abs(c) * amax, float((abs(M["flux"]) @ np.abs(p0) + abs(M["bound_flux"]) @ np.abs(bc0)).max()) if backward_scale else 0.0)
     if np.abs(fl0).max() > TOL * sc0:
         f = int(np.argmax(np.abs(fl0)))
         cl = _face_class(f, bfset, isdir)
         return {"what": f"{gt} grid {case['n']}: constant pressure {c} gives flux {fl0[f]!r} on {cl} face {f} (K = {case['K']}, "
                         f"Dirichlet faces {case['dir']})", "key": f"const-nonzero-flux:{gt}:{cl}"}
-    if np.abs(pr0 - c)[bf].max() > TOL * max(1.0, abs(c)):
+    if np.abs(pr0 - c)[bf].max() > TOL * abs(c):
         f = int(bf[int(np.argmax(np.abs(pr0 - c)[bf]))])
         cl = _face_class(f, bfset, isdir)
         return {"what": f"{gt} grid {case['n']}: constant pressure {c} reconstructed as {pr0[f]!r} on {cl} face {f}",
@@ -747,10 +796,11 @@ def compare(impl, model, case):
         return f"implementation raised: {impl['harness_exc']}"
     if model["problems"]:
         return "; ".join(model["problems"][:3])
+    scq = {q: (max([abs(float(Fraction(x))) for w in ("aff", "rnd") for x in model[w][q]] + [0.0]) or 1.0) for q in ("flux", "pres")}
     for w in ("aff", "rnd"):
         for q in ("flux", "pres"):
             mv = [float(Fraction(x)) for x in model[w][q]]
-            sc = max([1.0] + [abs(x) for x in mv])
+            sc = scq[q]
             for f, x, y in zip(case["faces"], impl[w][q], mv):
                 if not abs(x - y) <= TOL * sc:
                     return (f"{w}.{q} on face {f}: real matrices give {x!r}, exact region model gives {y!r} "
@@ -763,7 +813,7 @@ def compare(impl, model, case):
             B = np.array([[float(Fraction(x)) for x in row] for row in model["mats"][k]])
             if A.shape != B.shape:
                 return f"matrix {k}: shape {A.shape} vs model {B.shape}"
-            sc = max(1.0, float(np.abs(B).max()))
+            sc = float(np.abs(B).max()) or 1.0
             D = np.abs(A - B)
             if not D.max() <= TOL * sc:
                 i, j = np.unravel_index(int(np.argmax(D)), D.shape)
@@ -811,7 +861,8 @@ def stats(cases, impl_outs):
     for c in cases:
         nb = c.get("nbf", -1)
         ndir["all-dirichlet" if len(c["dir"]) == nb else ("one-dirichlet" if len(c["dir"]) == 1 else "mixed")] += 1
-    return {"grid_types": dict(gt), "boundary_mix": dict(ndir),
+    strata = {k: dict(Counter(str(c.get("strata", {}).get(k, "corpus")) for c in cases)) for k in ("K", "K_exp", "geom_exp", "bc", "perturbed")}
+    return {"grid_types": dict(gt), "boundary_mix": dict(ndir), "strata": strata,
             "numba_inverter": sum(1 for c in cases if c.get("inverter") == "numba"),
             "sub_problems": sum(1 for c in cases if c.get("nsub", 1) > 1),
             "degenerate_skipped": sum(1 for c in cases if _degenerate(c)),
